@@ -474,7 +474,7 @@ Qed.
 
 Lemma wf_channel_reestablish c nl nr c' ms : chan_wf c -> channel_reestablish c nl nr = ROk (c', ms) -> chan_wf c'.
 Proof.
-  intros H. unfold channel_reestablish. destruct (negb (c_disconnected c)); [discriminate|].
+  intros H. unfold channel_reestablish. cbv zeta. destruct (negb (c_disconnected c)); [discriminate|].
   destruct (_ <? _); [discriminate|]. destruct (negb _); [discriminate|].
   destruct (nl =? _); [intros [= <- <-]; apply wf_set_flags; exact H|].
   destruct (nl =? _); [intros [= <- <-]; apply wf_set_flags; exact H|].
@@ -768,7 +768,7 @@ Qed.
 
 Lemma self_channel_reestablish c nl nr c' ms : channel_reestablish c nl nr = ROk (c', ms) -> c_self_msat c' = c_self_msat c.
 Proof.
-  unfold channel_reestablish. destruct (negb _); [discriminate|]. destruct (_ <? _); [discriminate|].
+  unfold channel_reestablish. cbv zeta. destruct (negb _); [discriminate|]. destruct (_ <? _); [discriminate|].
   destruct (negb _); [discriminate|]. destruct (nl =? _); [intros [= <- <-]; reflexivity|].
   destruct (nl =? _); [intros [= <- <-]; reflexivity|]. destruct (nl <? _); discriminate.
 Qed.
